@@ -375,51 +375,80 @@ fn dep_configs(thorough: bool) -> Vec<DepConfig> {
     let mut out = vec![];
     // file presence masks over the three directories (non-empty subsets)
     let masks: Vec<u8> = if thorough { (1..8).collect() } else { vec![1, 2, 4, 3, 6, 7] };
+    // file-name policies: how the three file names are spelled in the source and on disk.
+    // (written form, on-disk relative path) as functions of the plain stem and extension
+    const POLICIES: [&str; 7] = ["plain", "star-led", "subdirectory", "quoted-with-space", "dialect-name-led", "no-extension", "dot-led"];
+    fn spell(policy: usize, stem: &str, ext: &str) -> (String, String) {
+        match policy {
+            0 => (format!("{}.{}", stem, ext), format!("{}.{}", stem, ext)),
+            1 => (format!("*{}*.{}", stem, ext), format!("*{}*.{}", stem, ext)),
+            2 => (format!("sub/{}.{}", stem, ext), format!("sub/{}.{}", stem, ext)),
+            3 => (format!("\"{} file.{}\"", stem, ext), format!("{} file.{}", stem, ext)),
+            4 => (format!("*standard-cl-21*{}.{}", stem, ext), format!("*standard-cl-21*{}.{}", stem, ext)),
+            5 => (format!("{}{}", stem, ext), format!("{}{}", stem, ext)),
+            _ => (format!(".{}.{}", stem, ext), format!(".{}.{}", stem, ext)),
+        }
+    }
     for (hname, sig) in &hosts {
-        for shape in 0..6 {
-            for &ma in &masks {
-                for &mb in if thorough { masks.clone() } else { vec![1, 6] }.iter() {
-                    for order in &perms {
-                        let mut files: Vec<(String, Vec<u8>)> = vec![];
-                        let host = match shape {
-                            0 => format!("(mod (X) {}(c X 1))", sig),
-                            1 => format!("(mod (X) {}(include a.clinc) (c X (fa 1)))", sig),
-                            2 => format!("(mod (X) {}(include a.clinc) (c X (fb 1)))", sig), // a includes b
-                            3 => format!("(mod (X) {}(embed-file DATA bin data.bin) (c X DATA))", sig),
-                            4 => format!("(mod (X) {}(include a.clinc) (c X EMB))", sig), // a embeds hex
-                            _ => format!("(mod (X) {}(embed-file S sexp data.sexp) (include a.clinc) (c S (fa X)))", sig),
-                        };
-                        for d in 0..3u8 {
-                            if ma & (1 << d) != 0 {
-                                let body = match shape {
-                                    2 => format!("(\n (include b.clinc)\n (defun fa (Y) (+ Y {}))\n)", 10 + d),
-                                    4 => format!("(\n (embed-file EMB hex data.hex)\n (defun fa (Y) (+ Y {}))\n)", 10 + d),
-                                    _ => format!("(\n (defun fa (Y) (+ Y {}))\n)", 10 + d),
-                                };
-                                if shape != 0 && shape != 3 {
-                                    files.push((format!("d{}/a.clinc", d), body.into_bytes()));
+        for policy in 0..POLICIES.len() {
+            for shape in 0..6 {
+                for &ma in &masks {
+                    for &mb in if thorough { masks.clone() } else { vec![1, 6] }.iter() {
+                        for (oi, order) in perms.iter().enumerate() {
+                            if policy != 0 {
+                                // the naming dimension is crossed with a reduced presence/order set
+                                let small = |m: u8| m == 1 || m == 6;
+                                if shape == 0 || !small(ma) || !small(mb) || (!thorough && oi > 1) {
+                                    continue;
                                 }
                             }
-                            if mb & (1 << d) != 0 {
-                                match shape {
-                                    2 => files.push((format!("d{}/b.clinc", d), format!("(\n (defun fb (Y) (* Y {}))\n)", 20 + d).into_bytes())),
-                                    3 => files.push((format!("d{}/data.bin", d), format!("bin{}", d).into_bytes())),
-                                    4 => files.push((format!("d{}/data.hex", d), format!("ff0{}", d).into_bytes())),
-                                    5 => files.push((format!("d{}/data.sexp", d), format!("(1 2 {})", d).into_bytes())),
-                                    _ => {}
+                            let (a_w, a_d) = spell(policy, "a", "clinc");
+                            let (b_w, b_d) = spell(policy, "b", "clinc");
+                            let (bin_w, bin_d) = spell(policy, "data", "bin");
+                            let (hex_w, hex_d) = spell(policy, "data", "hex");
+                            let (sx_w, sx_d) = spell(policy, "data", "sexp");
+                            let mut files: Vec<(String, Vec<u8>)> = vec![];
+                            let host = match shape {
+                                0 => format!("(mod (X) {}(c X 1))", sig),
+                                1 => format!("(mod (X) {}(include {}) (c X (fa 1)))", sig, a_w),
+                                2 => format!("(mod (X) {}(include {}) (c X (fb 1)))", sig, a_w), // a includes b
+                                3 => format!("(mod (X) {}(embed-file DATA bin {}) (c X DATA))", sig, bin_w),
+                                4 => format!("(mod (X) {}(include {}) (c X EMB))", sig, a_w), // a embeds hex
+                                _ => format!("(mod (X) {}(embed-file S sexp {}) (include {}) (c S (fa X)))", sig, sx_w, a_w),
+                            };
+                            for d in 0..3u8 {
+                                if ma & (1 << d) != 0 {
+                                    let body = match shape {
+                                        2 => format!("(\n (include {})\n (defun fa (Y) (+ Y {}))\n)", b_w, 10 + d),
+                                        4 => format!("(\n (embed-file EMB hex {})\n (defun fa (Y) (+ Y {}))\n)", hex_w, 10 + d),
+                                        _ => format!("(\n (defun fa (Y) (+ Y {}))\n)", 10 + d),
+                                    };
+                                    if shape != 0 && shape != 3 {
+                                        files.push((format!("d{}/{}", d, a_d), body.into_bytes()));
+                                    }
+                                }
+                                if mb & (1 << d) != 0 {
+                                    match shape {
+                                        2 => files.push((format!("d{}/{}", d, b_d), format!("(\n (defun fb (Y) (* Y {}))\n)", 20 + d).into_bytes())),
+                                        3 => files.push((format!("d{}/{}", d, bin_d), format!("bin{}", d).into_bytes())),
+                                        4 => files.push((format!("d{}/{}", d, hex_d), format!("ff0{}", d).into_bytes())),
+                                        5 => files.push((format!("d{}/{}", d, sx_d), format!("(1 2 {})", d).into_bytes())),
+                                        _ => {}
+                                    }
                                 }
                             }
+                            if shape == 0 && (ma != 1 || mb != 1) {
+                                continue;
+                            }
+                            if (shape == 1) && mb != 1 {
+                                continue;
+                            }
+                            if shape == 3 && ma != 1 {
+                                continue;
+                            }
+                            let tag = if policy == 0 { format!("{}/shape{}", hname, shape) } else { format!("{}/shape{}/names:{}", hname, shape, POLICIES[policy]) };
+                            out.push(DepConfig { host, files, order: order.clone(), tag });
                         }
-                        if shape == 0 && (ma != 1 || mb != 1) {
-                            continue;
-                        }
-                        if (shape == 1) && mb != 1 {
-                            continue;
-                        }
-                        if shape == 3 && ma != 1 {
-                            continue;
-                        }
-                        out.push(DepConfig { host, files, order: order.clone(), tag: format!("{}/shape{}", hname, shape) });
                     }
                 }
             }
@@ -442,7 +471,11 @@ fn check_c18(st: &mut Stats, cfg: &DepConfig, root: &str) {
         std::fs::create_dir_all(format!("{}/d{}", root, d)).expect("mkdir");
     }
     for (p, c) in &cfg.files {
-        std::fs::write(format!("{}/{}", root, p), c).expect("write");
+        let full = format!("{}/{}", root, p);
+        if let Some(parent) = std::path::Path::new(&full).parent() {
+            std::fs::create_dir_all(parent).expect("mkdir");
+        }
+        std::fs::write(full, c).expect("write");
     }
     let search: Vec<String> = cfg.order.iter().map(|d| format!("{}/d{}", root, d)).collect();
     let replay = json!({"kind": "c18", "host": cfg.host, "files": cfg.files.iter().map(|(p, c)| json!({"path": p, "content": String::from_utf8_lossy(c)})).collect::<Vec<_>>(), "search_order": cfg.order});
@@ -451,7 +484,7 @@ fn check_c18(st: &mut Stats, cfg: &DepConfig, root: &str) {
     let mut read: Vec<String> = vec![];
     for (p, c) in &cfg.files {
         let full = format!("{}/{}", root, p);
-        let perturbed: Vec<u8> = if p.ends_with(".clinc") { String::from_utf8_lossy(c).replace("(+ Y ", "(+ Y 7").replace("(* Y ", "(* Y 7").into_bytes() } else if p.ends_with(".hex") { b"aa55".to_vec() } else if p.ends_with(".sexp") { b"(9 9 9)".to_vec() } else { b"PERTURBED".to_vec() };
+        let perturbed: Vec<u8> = if p.ends_with("clinc") { String::from_utf8_lossy(c).replace("(+ Y ", "(+ Y 7").replace("(* Y ", "(* Y 7").into_bytes() } else if p.ends_with("hex") { b"aa55".to_vec() } else if p.ends_with("sexp") { b"(9 9 9)".to_vec() } else { b"PERTURBED".to_vec() };
         std::fs::write(&full, &perturbed).expect("write");
         let now = compile_outcome(&cfg.host, &search);
         std::fs::write(&full, c).expect("restore");
@@ -473,7 +506,8 @@ fn check_c18(st: &mut Stats, cfg: &DepConfig, root: &str) {
         Err(e) => {
             if base.starts_with("ok:") {
                 st.outcome("listing-fails-but-compile-succeeds");
-                st.violation(&format!("listing-error/{}", cfg.tag), format!("{} compiles but the dependency listing fails: {}", cfg.host, e), cfg.files.len(), replay);
+                // the failure class is identified by host dialect and graph shape; the spelling of the file names does not enter it
+                st.violation(&format!("listing-error/{}", cfg.tag.split("/names:").next().unwrap_or(&cfg.tag)), format!("{} compiles but the dependency listing fails: {}", cfg.host, e), cfg.files.len(), replay);
             } else {
                 st.outcome("both-fail");
             }
@@ -485,13 +519,13 @@ fn check_c18(st: &mut Stats, cfg: &DepConfig, root: &str) {
     for r in &read {
         if !listing.iter().any(|l| std::path::Path::new(l) == std::path::Path::new(r)) {
             ok = false;
-            let kind = if r.ends_with(".clinc") { "include" } else { "embed-file" };
+            let kind = if r.ends_with("clinc") { "include" } else { "embed-file" };
             st.violation(&format!("read-but-not-listed/{}/{}", kind, cfg.tag), format!("{} with search order {:?}: {} is read (perturbing it changes the output) but the listing is {:?}", cfg.host, cfg.order, r, listing), cfg.files.len(), replay.clone());
         }
     }
     for l in &listing {
         // each listed name must be the first match in search-path order
-        let name = std::path::Path::new(l).file_name().map(|s| s.to_string_lossy().to_string()).unwrap_or_default();
+        let name = search.iter().find_map(|d| l.strip_prefix(&format!("{}/", d)).map(|x| x.to_string())).unwrap_or_else(|| std::path::Path::new(l).file_name().map(|s| s.to_string_lossy().to_string()).unwrap_or_default());
         let first = search.iter().map(|d| format!("{}/{}", d, name)).find(|p| std::path::Path::new(p).exists());
         match first {
             Some(f) if std::path::Path::new(&f) == std::path::Path::new(l) => {}
@@ -509,7 +543,7 @@ fn check_c18(st: &mut Stats, cfg: &DepConfig, root: &str) {
 
 pub fn c18(thorough: bool, replay: Option<String>) -> i32 {
     let mut rep = Report::new("C18", if thorough { "thorough" } else { "quick" }, "exploration");
-    rep.rule = "every include-graph configuration of the stated family: 6 graph shapes (no include; plain include; include of an include; embed-file bin directly; embed-file hex inside an included file; embed-file sexp next to an include) x every presence pattern of each file name in 3 search directories (different contents per directory) x search-path permutations x host dialects. \
+    rep.rule = "every include-graph configuration of the stated family: 6 graph shapes (no include; plain include; include of an include; embed-file bin directly; embed-file hex inside an included file; embed-file sexp next to an include) x 7 file-name spellings (plain, *star-led*, in a subdirectory, quoted with a space, led by a dialect name, without extension, dot-led; the non-plain spellings over a reduced presence/order set) x every presence pattern of each file name in 3 search directories (different contents per directory) x search-path permutations x host dialects. \
         The files a compilation reads are determined without hooks: each file on disk is perturbed in turn and the program recompiled through compile_clvm_text; if the output (or error status) changes, the file was read. Every file so detected must be in gather_dependencies' listing, and every listed path must be the first match for its name in search-path order. non-trivial = distinct configurations with at least one file read and a correct listing"
         .to_string();
     rep.assumptions = vec!["a file whose perturbation cannot change the output (it is shadowed, or not reachable) is correctly treated as not read".to_string()];
